@@ -132,7 +132,15 @@ class C01(Prop):
               "nwkw": neutral_write_kw(g, present=tuple(kw) + ("column_fmt", "len_numeric_field", "data_width"))}
         if g.random() < 0.12:
             # an earlier write of the same object with another numeric format, handed the very same option objects
-            sc["prior_fmt"] = g.choice(["%.1f", "%.2f", "%.8f", "%.3e"])
+            sc["prior_fmt"] = g.choice(["%.1f", "%.2f", "%.8f", "%.3e", None])
+            sc["prior_edit"] = g.random() < 0.6     # ... and the samples are edited in place between the two writes
+        if g.random() < 0.1:
+            # the LASFile under test was obtained by reading a file (any mnemonic_case), not built from scratch
+            sc["via_read"] = g.choice(["lower", "upper", "preserve"])
+            if sc["via_read"] == "lower" and sc["case"] == "preserve":
+                # the file then spells null/dlm/wrap in lower case; lasio recognises the steering names in a file by the
+                # case-mapped spelling, so reading it back with mnemonic_case='preserve' is not one of the statement's reads
+                sc["case"] = "upper"
         return sc
 
     # ---------------------------------------------------------------------------------------------------------
@@ -185,13 +193,37 @@ class C01(Prop):
             nm = "DEPT" if j == 0 else ("C%d" % j if sc["names"] == "plain" else ("Gr%dx" % j if sc["names"] == "mixed" else "CURVE_NUMBER_%d_LONG" % j))
             names.append(nm)
             las.append_curve(nm, np.array(cols[j], dtype=float), unit="M" if j == 0 else "U", descr="curve %d" % j)
+        if sc.get("via_read"):
+            try:
+                o = io.StringIO()
+                las.write(o, fmt="%.17g")
+                las2 = lasio.read(o.getvalue(), mnemonic_case=sc["via_read"], engine="normal")
+                same = len(las2.curves) == nc and all(
+                    np.array_equal(np.asarray(las2.curves[j].data, dtype=float), np.array(cols[j], dtype=float), equal_nan=True) for j in range(nc))
+            except Exception:
+                same = False
+            if same:
+                las = las2
+                cfl = {"upper": str.upper, "lower": str.lower}.get(sc["via_read"], str)
+                names = [cfl(n) for n in names]
+                res.count("object-obtained-by-reading:" + sc["via_read"])
+            else:
+                res.count("via-read-skipped")
         fs = SimFS(policy=Policy.from_json(sc["policy"]))
         with fs:
-            if sc.get("prior_fmt"):
+            if "prior_fmt" in sc:
                 try:
                     pk = dict(kw)             # shallow: the column_fmt dict is the caller's one object in both calls
-                    pk["fmt"] = sc["prior_fmt"]
+                    if sc["prior_fmt"]:
+                        pk["fmt"] = sc["prior_fmt"]
+                    if sc.get("prior_edit"):
+                        for j in range(1, nc):
+                            las.curves[j].data[:] = np.asarray(las.curves[j].data) * 0.5 + 3.0
                     las.write(io.StringIO(), **pk)
+                    if sc.get("prior_edit"):
+                        for j in range(1, nc):
+                            las.curves[j].data[:] = np.array(cols[j], dtype=float)      # in place: the same array objects
+                        res.count("samples-edited-in-place-between-writes")
                     res.count("prior-write-with-shared-options")
                 except Exception:
                     res.count("prior-write-raised")
